@@ -98,6 +98,32 @@ def wtype(sd):
     return 'p{}({})'.format('' if pw is None else '-' + pw['type'], inner)
 
 
+def wcoarse(sd):
+    """Coarse weighting class for signatures: none / const (constant or
+    cell-volume weights only) / array (array weighting or boundary-node
+    fractions somewhere), plus the kind of product-space weighting."""
+    kinds = set(wtype(l) for l in build.leaf_descs(sd)) \
+        if sd['kind'] != 'field' else {'none'}
+    if kinds & {'array', 'discr-bdry'}:
+        w = 'array'
+    elif kinds & {'const', 'discr'}:
+        w = 'const'
+    else:
+        w = 'none'
+    pw = set()
+
+    def rec(d):
+        if d['kind'] == 'pspace':
+            if d.get('weighting') is not None:
+                pw.add(d['weighting']['type'])
+            for p in build.space_parts(d):
+                rec(p)
+    rec(sd)
+    if pw:
+        w += ',pw=' + '+'.join(sorted(pw))
+    return w
+
+
 def _pspace_comp_w(sd, m):
     wd = sd.get('weighting')
     if wd is None:
@@ -384,8 +410,8 @@ def build_func(space, sd, fd, geo=None):
         p = float(fd['p'])
         return leaf(S.GroupL1Norm(space, p),
                     R.GroupL1Norm(geo, p, fd.get('fill', 0.0)),
-                    region={'group': 'p{}-c{}'.format(
-                        fd['p'], wkind(geo.comp_w))})
+                    region={'group': 'p{}-c{}-b{}'.format(
+                        fd['p'], wkind(geo.comp_w), wtype(sd['base']))})
     if cls == 'IndicatorGroupL1UnitBall':
         p = float(fd['p'])
         return leaf(S.IndicatorGroupL1UnitBall(space, p),
@@ -693,6 +719,9 @@ def matrix_space_descs(draw):
                                                     'rn_array', 'discr')))
     m1 = draw(st.integers(1, 3))
     m2 = draw(st.integers(1, 3))
+    if m1 < m2 and draw(st.integers(0, 3)) != 0:
+        # wide matrix fields sit in a known crash region of NuclearNorm
+        m1, m2 = m2, m1
     inner = {'kind': 'pspace', 'base': base, 'power': m2, 'weighting': None,
              'exponent': 2.0}
     return {'kind': 'pspace', 'base': inner, 'power': m1, 'weighting': None,
@@ -779,7 +808,7 @@ def _bound_desc(n, lo):
 
 
 @st.composite
-def leaf_funcs(draw, sd, purpose, top=True):
+def leaf_funcs(draw, sd, purpose, top=True, full=False):
     """A leaf functional descriptor admissible on ``sd``.
 
     ``purpose``: 'conj' (C08: has convex_conj / proximal) or 'grad' (C09:
@@ -824,6 +853,14 @@ def leaf_funcs(draw, sd, purpose, top=True):
                 if purpose == 'conj' else ['L2NormSquared', 'Constant'])
     else:
         pool = ['sepsum']
+    if sk == 'power' and sd.get('weighting') is not None:
+        # SeparableSum builds its own (unweighted) product domain
+        pool = [c for c in pool if c != 'sepsum_power']
+    if full:
+        # functionals that are finite and differentiable a.e. on the whole
+        # space (inner parts of compositions, sums, products, quotients)
+        pool = [c for c in pool if c not in ('KL', 'KLConj', 'KLCE',
+                                             'LpNorm')]
     cls = draw(st.sampled_from(pool))
     if cls in ('L1Norm', 'L2Norm', 'L2NormSquared', 'Zero',
                'IndicatorNonnegativity', 'IndicatorSimplex',
@@ -874,10 +911,11 @@ def leaf_funcs(draw, sd, purpose, top=True):
                 'sing': draw(st.sampled_from([1.0, 2.0, INF]))}
     if cls == 'sepsum_power':
         return {'cls': cls, 'n': int(sd['power']),
-                'f': draw(leaf_funcs(sd['base'], purpose, top=False))}
+                'f': draw(leaf_funcs(sd['base'], purpose, top=False,
+                                     full=full))}
     if cls == 'sepsum':
         return {'cls': cls, 'parts': [draw(func_descs(p, purpose, 1,
-                                                      top=False))
+                                                      top=False, full=full))
                                       for p in build.space_parts(sd)]}
     raise HarnessError(cls)
 
@@ -956,21 +994,22 @@ def op_descs(draw, sd, n, top):
 
 
 @st.composite
-def func_descs(draw, sd, purpose, depth, top=True):
+def func_descs(draw, sd, purpose, depth, top=True, full=False):
     """Functional descriptor on ``sd`` of expression depth <= ``depth``."""
     sk = space_kind(sd)
     n = space_dim(sd)
     if depth <= 0 or sk in ('field',) or draw(st.integers(0, 3)) == 0:
-        return draw(leaf_funcs(sd, purpose, top=top))
+        return draw(leaf_funcs(sd, purpose, top=top, full=full))
     if sk == 'product':
-        return draw(leaf_funcs(sd, purpose, top=top))
+        return draw(leaf_funcs(sd, purpose, top=top, full=full))
     rules = CONJ_RULES if purpose == 'conj' else GRAD_RULES
     rule = draw(st.sampled_from(rules))
     if sk == 'matrix' and rule in ('comp', 'rightvec'):
         rule = 'rightscal'
 
-    def sub(d=depth - 1):
-        return draw(func_descs(sd, purpose, d, top=False))
+    def sub(d=depth - 1, full_=None):
+        return draw(func_descs(sd, purpose, d, top=False,
+                               full=full if full_ is None else full_))
 
     if rule == 'leftscal':
         s = draw(scal_pos()) if purpose == 'conj' else draw(scal_nz())
@@ -1006,14 +1045,25 @@ def func_descs(draw, sd, purpose, depth, top=True):
     if rule == 'infconv':
         return {'cls': 'infconv', 'f': sub(0), 'g': sub(0)}
     if rule == 'sum':
-        return {'cls': 'sum', 'f': sub(), 'g': sub(0)}
+        return {'cls': 'sum', 'f': sub(full_=True), 'g': sub(0, True)}
     if rule == 'bregman':
         return {'cls': 'bregman', 'f': sub(0), 'point': draw(vec(
             n, nz_values())),
             'subgrad': draw(st.sampled_from(['ref', 'grad']))
             if purpose == 'grad' else 'ref'}
-    if rule in ('product', 'quotient'):
-        return {'cls': rule, 'f': sub(0), 'g': sub(0)}
+    if rule == 'product':
+        return {'cls': rule, 'f': sub(0, True), 'g': sub(0, True)}
+    if rule == 'quotient':
+        # divisor bounded away from zero: c + (non-negative functional)
+        pos = [{'cls': 'L2NormSquared'}, {'cls': 'L2Norm'},
+               {'cls': 'Huber', 'gamma': 0.5}] if sk != 'matrix' \
+            else [{'cls': 'L2NormSquared'}]
+        if sk in ('rn', 'discr', 'power'):
+            pos.append({'cls': 'L1Norm'})
+        return {'cls': rule, 'f': sub(0, True),
+                'g': {'cls': 'scalarsum',
+                      'c': draw(st.sampled_from([1.0, 2.0, 0.5, 3.0])),
+                      'f': draw(st.sampled_from(pos))}}
     if rule == 'moreau':
         if sk in ('rn', 'discr'):
             base = draw(st.sampled_from(
@@ -1034,7 +1084,7 @@ def func_descs(draw, sd, purpose, depth, top=True):
         lin = od['kind'] in ('scaling', 'multiply', 'matrix', 'gradient')
         if lin:
             inner = draw(func_descs(rsd, purpose, min(depth - 1, 1),
-                                    top=False))
+                                    top=False, full=True))
         else:
             # nonlinear inner operator: smooth outer functional only
             m = space_dim(rsd)
